@@ -14,9 +14,13 @@ import (
 	"testing"
 	"time"
 
+	"wa-lang.org/wa/internal/ast"
 	"wa-lang.org/wa/internal/native/abi"
 	nparser "wa-lang.org/wa/internal/native/parser"
 	ntoken "wa-lang.org/wa/internal/native/token"
+	"wa-lang.org/wa/internal/parser"
+	"wa-lang.org/wa/internal/token"
+	"wa-lang.org/wa/internal/types"
 	wparser "wa-lang.org/wa/internal/wat/parser"
 )
 
@@ -144,46 +148,47 @@ func TestVerifBounded(t *testing.T) {
 		src := "func main { x := s[" + inner + "] }"
 		zzGuard(t, "FormatCode(.wa)", src, func() { FormatCode("a.wa", src) })
 	})
-	// constant expressions through the type checker: every A op B over boundary literals, all in one
-	// package per operator (a panic is then narrowed down to the single declaration)
-	lits := []string{"0", "1", "-1", "0.0", "1.0", "-1.5", "1e308", "1e-400", "'a'", "\"s\"", "true", "nil", "(1<<62)", "(1<<63)", "(1<<64)", "0.1", "1i", "x"}
+	// constant expressions through the type checker (parser + types.Config.Check as the loader calls it, one
+	// declaration per package so that an earlier type error cannot hide a later crash): every A op B and
+	// every unary op A over boundary literals, untyped and with a declared type; also inside a function body
+	lits := []string{"0", "1", "-1", "0.0", "1.0", "-1.5", "1e308", "1e-400", "'a'", "\"s\"", "true", "nil", "(1<<62)", "(1<<63)", "(1<<64)", "0.1", "1i", "x", "zero", "fzero"}
 	ops := []string{"+", "-", "*", "/", "%", "<<", ">>", "&", "|", "^", "&^", "==", "<", "&&"}
 	typs := []string{"", ": i32", ": u8", ": f32", ": f64", ": string", ": bool"}
+	check := func(src string) {
+		cases++
+		zzGuard(t, "parser + type checker", src, func() {
+			fset := token.NewFileSet()
+			f, err := parser.ParseFile(nil, fset, "a.wa", src, 0)
+			if err != nil {
+				return
+			}
+			conf := types.Config{}
+			conf.Check("main", fset, []*ast.File{f}, nil)
+		})
+	}
+	const pre = "const x = 7\nconst zero = 0\nconst fzero = 0.0\n"
 	for _, op := range ops {
-		var decls []string
 		for _, a := range lits {
 			for _, b := range lits {
 				for _, ty := range typs {
-					if ty != "" && !(a == "1.0" || b == "0.0" || a == "(1<<62)") {
-						continue // typed declarations for a few operands only
+					if ty != "" && !(a == "1.0" || b == "0.0" || b == "fzero" || a == "(1<<62)") {
+						continue // declared types for a few operands only
 					}
-					decls = append(decls, fmt.Sprintf("const c%d%s = %s %s %s", len(decls), ty, a, op, b))
+					check(fmt.Sprintf("%sconst c%s = %s %s %s\nfunc main {}\n", pre, ty, a, op, b))
+				}
+				if op == "/" || op == "%" || op == "<<" {
+					check(fmt.Sprintf("%sfunc main { v%s := %s %s %s; println(v) }\n", pre, "", a, op, b))
+					check(fmt.Sprintf("%sfunc main { v: f64 = %s %s %s; println(v) }\n", pre, a, op, b))
 				}
 			}
-		}
-		cases += len(decls)
-		load := func(ds []string) (p interface{}) {
-			src := "const x = 7\n" + strings.Join(ds, "\n") + "\nfunc main {}\n"
-			done := make(chan interface{}, 1)
-			go func() {
-				defer func() { done <- recover() }()
-				LoadProgramFile(DefaultConfig(), "a.wa", src)
-			}()
-			select {
-			case r := <-done:
-				return r
-			case <-time.After(60 * time.Second):
-				return "no return within 60s"
-			}
-		}
-		if r := load(decls); r != nil {
-			for _, d := range decls {
-				if r1 := load([]string{d}); r1 != nil {
-					t.Fatalf("COUNTEREXAMPLE LoadProgramFile(.wa) panics on %q: %v", d, r1)
-				}
-			}
-			t.Fatalf("COUNTEREXAMPLE LoadProgramFile(.wa) panics on the constant declarations with operator %s: %v", op, r)
 		}
 	}
-	fmt.Printf("BOUNDED {\"cases\": %d, \"bound\": \"token sequences of length <= %d (.wa: 19 tokens; .wz: 13 tokens, length <= %d), <= %d (WAT, 19 tokens), <= %d (native assembly, 14 tokens, 2 CPUs); plus wider alphabets (.wa 53 tokens, WAT 45 tokens) one token shorter; type checking (LoadProgramFile) for sequences of <= %d tokens; number literals of a radix prefix plus <= %d characters in 3 contexts; index/slice brackets of <= %d tokens; constant declarations A op B over 18 boundary literals x 14 operators (7 declared types for some) through the type checker; no panic, each call returns within 10 s\"}\n", cases, nWa, nWa-1, nWat, nAsm, nCheck, nLit, nIdx)
+	for _, op := range []string{"-", "+", "!", "^", "<-", "&", "*"} {
+		for _, a := range lits {
+			for _, ty := range typs {
+				check(fmt.Sprintf("%sconst c%s = %s%s\nfunc main {}\n", pre, ty, op, a))
+			}
+		}
+	}
+	fmt.Printf("BOUNDED {\"cases\": %d, \"bound\": \"token sequences of length <= %d (.wa: 19 tokens; .wz: 13 tokens, length <= %d), <= %d (WAT, 19 tokens), <= %d (native assembly, 14 tokens, 2 CPUs); plus wider alphabets (.wa 53 tokens, WAT 45 tokens) one token shorter; type checking (LoadProgramFile) for sequences of <= %d tokens; number literals of a radix prefix plus <= %d characters in 3 contexts; index/slice brackets of <= %d tokens; constant declarations A op B and op A over 20 boundary literals x 14 binary / 7 unary operators (7 declared types for some; divisions and shifts also inside a function body), one declaration per package through the parser and the type checker; no panic, each call returns within 10 s\"}\n", cases, nWa, nWa-1, nWat, nAsm, nCheck, nLit, nIdx)
 }
